@@ -101,7 +101,9 @@ func (m *ModuleInstance) CloseWithExitCode(ctx context.Context, exitCode uint32)
 	if !m.setExitCode(exitCode, exitCodeFlagResourceClosed) {
 		return nil // not an error to have already closed
 	}
+	verifYield("close:after-cas", m)
 	_ = m.s.deleteModule(m)
+	verifYield("close:after-delete", m)
 	return m.ensureResourcesClosed(ctx)
 }
 
@@ -114,6 +116,7 @@ func (m *ModuleInstance) closeWithExitCodeWithoutClosingResource(exitCode uint32
 	if !m.setExitCode(exitCode, exitCodeFlagResourceNotClosed) {
 		return nil // not an error to have already closed
 	}
+	verifYield("close:after-cas", m)
 	_ = m.s.deleteModule(m)
 	return nil
 }
